@@ -16,7 +16,7 @@ META = {
     'bounds': {'quick': 'metrics: all point pairs / triples symbolic reals (great-circle: lon in [-180,180], lat in [-90,90], and symbolic out-of-range values for the rejection claim; the symmetry / bound claims additionally case-split into antimeridian-west, antimeridian-east, interior and pole regions); '
                         'kernels: radius in {1, 2, 2.5, "3", "0.002km"}, cell sizes symbolic with radius/cellsize < 4 (half-widths 0..3 per axis, concretised by the solver); '
                         'annulus inner radius in {0.5, 1} x outer {2, 3}; NOT symbolic: six (radius, cell size) pairs whose kernels have cells exactly on the ellipse (half-widths 5, 13, 17, 25, 13x26); unit table: every key, symbolic magnitude; distance strings: an enumerated list of well- and mal-formed strings',
-               'thorough': 'same with half-widths up to 5'},
+               'thorough': 'additionally: circle kernels with half-widths up to 6 per axis (radii 5, "7.5", 6), annuli (4,1) (4,2.5) (5,3) with half-widths up to 5, six more concrete on-the-circle kernels (half-widths 29, 37, 50x25, 41, 41, 65), great-circle symmetry in the antipodal and equatorial regions'},
     'stubs': ['libm sin/cos/asin/sqrt Ackermannised (range, sign on (0,pi), odd/even, sqrt zero / exact)', 'numba.jit = identity'],
     'outside': ['triangle inequality of the great-circle distance (needs spherical trigonometry that is not derivable from the first-order libm axioms)',
                 'haversine term a in [0,1] (trigonometric fact, assumed when bounding the distance)',
@@ -37,7 +37,8 @@ def jobs(tier, seed):
            # the same claims case-split along the quantifier's landmarks (antimeridian crossings in either direction, poles, interior):
            # every counterexample of a region job lies in that region, so a defect confined to one region is replayed there
            {'name': 'great-circle-symmetry-antimeridian-west', 'kind': 'gc', 'region': 'am-west'}, {'name': 'great-circle-symmetry-antimeridian-east', 'kind': 'gc', 'region': 'am-east'},
-           {'name': 'great-circle-symmetry-interior', 'kind': 'gc', 'region': 'interior'}, {'name': 'great-circle-symmetry-pole', 'kind': 'gc', 'region': 'pole'},
+           {'name': 'great-circle-symmetry-interior', 'kind': 'gc', 'region': 'interior'}, {'name': 'great-circle-unit-sphere', 'kind': 'gc', 'region': 'interior', 'radius': 1.0},
+           {'name': 'great-circle-radius-2.5-antimeridian', 'kind': 'gc', 'region': 'am-west', 'radius': 2.5}, {'name': 'great-circle-symmetry-pole', 'kind': 'gc', 'region': 'pole'},
            {'name': 'great-circle-range-rejection', 'kind': 'gc-range'},
            {'name': 'distance-dispatch', 'kind': 'dispatch'}]
     for i, r in enumerate(RADII):
@@ -48,6 +49,16 @@ def jobs(tier, seed):
     for ro in (2, 3):
         for ri in (0.5, 1):
             out.append({'name': 'annulus-kernel-%s-%s' % (ro, ri), 'kind': 'annulus', 'outer': ro, 'inner': ri})
+    if tier != 'quick':
+        # wider kernels (half-widths up to 6 per axis with symbolic cell sizes), more annuli, more on-the-circle kernels, antipodal region
+        for i, r in enumerate((5, '7.5', 6)):
+            out.append({'name': 'circle-kernel-wide-r%d' % i, 'kind': 'circle', 'radius': r, 'maxhalf': 6})
+        for ro, ri in ((4, 1), (4, 2.5), (5, 3)):
+            out.append({'name': 'annulus-kernel-%s-%s' % (ro, ri), 'kind': 'annulus', 'outer': ro, 'inner': ri, 'maxhalf': 5})
+        for i, (cx, cy, r) in enumerate(((1.0, 1.0, 29), (1.0, 1.0, 37), (1.0, 2.0, 50), (0.25, 0.25, 10.25), (3.0, 3.0, 123), (1.0, 1.0, 65))):
+            out.append({'name': 'circle-kernel-on-the-circle-t%d' % i, 'kind': 'circle-fixed', 'radius': r, 'cellsize': [cx, cy]})
+        out.append({'name': 'great-circle-symmetry-antipodal', 'kind': 'gc', 'region': 'antipodal'})
+        out.append({'name': 'great-circle-symmetry-equator', 'kind': 'gc', 'region': 'equator'})
     out.append({'name': 'unit-table', 'kind': 'units'})
     out.append({'name': 'distance-strings', 'kind': 'strings'})
     out.append({'name': 'calc-cellsize', 'kind': 'cellsize'})
@@ -111,14 +122,21 @@ def body(ctx, job):
             ctx.assume(And(abs(x2 - x1) < 179, abs(x2 - x1) > 1, abs(y1) < 80, abs(y2) < 80, abs(y1 - y2) > 1))
         elif region == 'pole':
             ctx.assume(Or(y1 == 90, y1 == -90))
-        d12 = ctx.call('proximity:great_circle_distance', x1, x2, y1, y2)
+        elif region == 'antipodal':
+            ctx.assume(And(abs(abs(x2 - x1) - 180) < 1, abs(y1 + y2) < 1, abs(y1) < 80))
+        elif region == 'equator':
+            ctx.assume(And(y1 == 0, y2 == 0, abs(x2 - x1) > 1))
+        rad = job.get('radius')
+        extra = (rad,) if rad is not None else ()
+        Rj = rad if rad is not None else R
+        d12 = ctx.call('proximity:great_circle_distance', x1, x2, y1, y2, *extra)
         ctx.observe('d12', d12)
         if kind == 'gc':
-            d21 = ctx.call('proximity:great_circle_distance', x2, x1, y2, y1)
-            d11 = ctx.call('proximity:great_circle_distance', x1, x1, y1, y1)
+            d21 = ctx.call('proximity:great_circle_distance', x2, x1, y2, y1, *extra)
+            d11 = ctx.call('proximity:great_circle_distance', x1, x1, y1, y1, *extra)
             ctx.check('symmetric', same(d12, d21))
             ctx.check('zero-on-coincident', d11 == 0)
-            ctx.check('at-most-half-circumference', Implies(Not(isnan(d12)), And(d12 >= 0, d12 <= math.pi * R * (1 + 1e-12))))
+            ctx.check('at-most-half-circumference', Implies(Not(isnan(d12)), And(d12 >= 0, d12 <= math.pi * Rj * (1 + 1e-12))))
         else:
             # the float constants pi/180 and pi/2 do not line up exactly: treat latitudes within 1e-9 degrees of a pole as the pole,
             # longitudes within 1e-9 degrees of a full turn apart as the same meridian
@@ -220,8 +238,9 @@ def _check_ellipse(ctx, k, hw, hh, label, minus=None):
 def body_circle(ctx, job):
     r = job['radius']
     rm = _radius_m(r)
-    csx = ctx.real('cellsize_x', lo=rm / 3.9, hi=rm * 4)
-    csy = ctx.real('cellsize_y', lo=rm / 3.9, hi=rm * 4)
+    mh = job.get('maxhalf', 3) + 0.9
+    csx = ctx.real('cellsize_x', lo=rm / mh, hi=rm * 4)
+    csy = ctx.real('cellsize_y', lo=rm / mh, hi=rm * 4)
     k = ctx.call('convolution:circle_kernel', csx, csy, r)
     ctx.observe('shape', list(k.shape))
     hh, hw = (k.shape[0] - 1) // 2, (k.shape[1] - 1) // 2
@@ -246,8 +265,9 @@ def body_circle_fixed(ctx, job):
 
 def body_annulus(ctx, job):
     ro, ri = job['outer'], job['inner']
-    csx = ctx.real('cellsize_x', lo=ro / 3.9, hi=ro * 2)
-    csy = ctx.real('cellsize_y', lo=ro / 3.9, hi=ro * 2)
+    mh = job.get('maxhalf', 3) + 0.9
+    csx = ctx.real('cellsize_x', lo=ro / mh, hi=ro * 2)
+    csy = ctx.real('cellsize_y', lo=ro / mh, hi=ro * 2)
     k = ctx.call('convolution:annulus_kernel', csx, csy, ro, ri)
     outer = ctx.call('convolution:circle_kernel', csx, csy, ro)
     inner = ctx.call('convolution:circle_kernel', csx, csy, ri)
